@@ -7,7 +7,9 @@ SEED="$1"; shift
 cd /verif
 if [ -n "$(git -C /repo status --porcelain --untracked-files=no)" ]; then echo "/repo has uncommitted changes; refusing"; exit 2; fi
 git -C /repo apply "$SEED/patch.diff" || { echo "patch does not apply"; exit 2; }
-trap 'git -C /repo checkout -- . ; echo "[/repo restored]"' EXIT INT TERM
+# evidence files are rewritten by every run: keep the ones from the unchanged tree
+BK=/verif/.build/evidence-backup.$$; mkdir -p /verif/.build; rm -rf "$BK"; cp -r /verif/evidence "$BK"
+trap 'git -C /repo checkout -- . ; rm -rf /verif/evidence; mv "$BK" /verif/evidence; echo "[/repo and evidence restored]"' EXIT INT TERM
 for P in "$@"; do
   echo "=== $P with $(basename $SEED)"
   ./check "$P" --tier quick > "$SEED/result-$P.txt" 2>&1
